@@ -103,3 +103,10 @@ Fixpoint monitor_from (c : cfg) (m : mon) (pos : nat) (tr : list (srv_op * srv_o
   end.
 
 Definition monitor (c : cfg) (tr : list (srv_op * srv_out)) : option (nat * nat) := monitor_from c minit O tr.
+
+(* the state after a sequence of operations (for statements about all reachable states) *)
+Fixpoint srv_final (c : cfg) (st : srv_state) (ops : list srv_op) : srv_state :=
+  match ops with
+  | [] => st
+  | o :: t => srv_final c (fst (srv_step c st o)) t
+  end.
